@@ -1,7 +1,7 @@
 (* C03 -- requests on the wire are canonical, decodable frames carrying the arguments.
    Statements only; every proof is `exact <lemma>`.  Gen.* = translated from /repo on this run. *)
 From Coq Require Import ZArith List Bool String.
-From GW Require Import Prelude PyStr Crc16 Frames CrcTable ModbusGen ProtoGen C03Proofs C03Aa55.
+From GW Require Import Prelude PyStr Crc16 Frames CrcTable ModbusGen ProtoGen C03Proofs C03Aa55 CallGen.
 Import ListNotations.
 Open Scope Z_scope.
 
@@ -71,6 +71,17 @@ Theorem C03_aa55_write_multi : forall offset values, 0 <= offset < 65536 -> byte
               aq_payload := [offset / 256; offset mod 256; 8] ++ values |}.
 Proof. exact aa55_write_multi_parses. Qed.
 
+(* from the inverter object to the command object: Inverter._read_command / _write_command / _write_multi_command delegate to the protocol
+   object's factory, and each factory of the two transport classes is `return <Command>(self._comm_addr, <arguments>)` -- the command of its
+   transport and kind, built anew from the object's own communication address on every call (tools/callgraph.py refuses anything else, e.g. a
+   cache; this list exists only when that check passed on the current source) *)
+Theorem C03_factories_construct_from_the_own_address :
+  command_factories =
+  [("UdpInverterProtocol", "read_command", "ModbusRtuReadCommand"); ("UdpInverterProtocol", "write_command", "ModbusRtuWriteCommand");
+   ("UdpInverterProtocol", "write_multi_command", "ModbusRtuWriteMultiCommand"); ("TcpInverterProtocol", "read_command", "ModbusTcpReadCommand");
+   ("TcpInverterProtocol", "write_command", "ModbusTcpWriteCommand"); ("TcpInverterProtocol", "write_multi_command", "ModbusTcpWriteMultiCommand")]%string.
+Proof. exact (eq_refl command_factories). Qed.
+
 Print Assumptions C03_rtu.
 Print Assumptions C03_rtu_multi.
 Print Assumptions C03_crc.
@@ -80,3 +91,4 @@ Print Assumptions C03_tx.
 Print Assumptions C03_aa55_read.
 Print Assumptions C03_aa55_write.
 Print Assumptions C03_aa55_write_multi.
+Print Assumptions C03_factories_construct_from_the_own_address.
